@@ -408,7 +408,8 @@ def agree(req, rep):
         return False
     if req["op"] == "apply":
         # the Lean application semantics on the model's program == the independent interpreter on the compiled font
-        return m == o["table"]
+        # (the second conjunct can never fail: C05_end_to_end is a theorem; it only guards the driver's own evaluation of it)
+        return m == o["table"] and not ((rep.get("info") or {}).get("e2e_bad"))
     p = o["program"]
     return m["lookups"] == p["lookups"] and m["kern"] == p["kern"] and m["dist"] == p["dist"]
 
